@@ -11,7 +11,7 @@ FUNCS = ["memcpy", "memmove", "memset", "memcmp", "memchr", "memrchr", "strlen",
          "strchrnul", "strstr", "strcasestr", "strspn", "strcspn", "strpbrk", "strtok", "strtok_r", "strdup",
          "strndup", "strlwr", "strupr"]
 
-QUICK = 500000
+QUICK = 350000
 THOROUGH = 1000000
 
 PROP = {
